@@ -25,20 +25,30 @@ Q_EpochOffs  == {0, 1, 2}
 Q_CfgKeys    == {"c0"}
 Q_CfgVals    == {"x"}
 
-\* quick, second half: one key, two probe subscribers, deeper
+\* quick, depth: one key, the sufficient and one insufficient signer set
+QD_Keys       == {"k1"}
+QD_SignerSets == {{"k1", "ALPHA"}, {"k1"}}
+\* quick, ticks and subscribers: one key, two probe subscribers
 QB_Keys       == {"k1"}
 QB_StateArgs  == {2, 3}
 QB_SignerSets == {{"ALPHA"}, {"k1", "ALPHA"}, {"CMT"}}
 
-T_Keys       == {"k1", "k2", "k3"}
+\* thorough, candidates: two keys in every placement, all malformed keys, all state values
+T_Keys       == {"k1", "k2"}
 T_Bad        == {"b0", "b32", "b34"}
-T_Probes     == {"s1", "s2", "s3"}
 T_Infos      == {1, 2}
 T_StateArgs  == {-1, 0, 1, 2, 3, 4}
-T_SignerSets == {{}, {"ALPHA"}, {"k1"}, {"k1", "ALPHA"}, {"k2", "ALPHA"}, {"k1", "CMT"}, {"M1", "k3"}}
-T_EpochOffs  == {-1, 0, 1, 3}
-T_CfgKeys    == {"c0", "cA"}
-T_CfgVals    == {"x", ""}
+T_SignerSets == {{"ALPHA"}, {"k1"}, {"k1", "ALPHA"}, {"k2", "ALPHA"}, {"k1", "CMT"}}
+T_EpochOffs  == {0, 1}
+\* thorough, depth: two keys, everything authorised, every reachable placement/state combination
+TD_StateArgs  == {1, 2, 3}
+TD_SignerSets == {{"k1", "k2", "ALPHA"}}
+\* thorough, ticks and subscribers: three probes, all epoch arguments, shared blocks
+TB_Probes     == {"s1", "s2", "s3"}
+TB_SignerSets == {{"ALPHA"}, {"k1", "ALPHA"}, {"CMT"}, {}}
+TB_EpochOffs  == {-1, 0, 1, 3}
+TB_CfgKeys    == {"c0", "cA"}
+TB_CfgVals    == {"x", ""}
 
 \* ring configurations: one key, no subscribers
 R_Keys       == {"k1"}
